@@ -104,6 +104,41 @@ Theorem C18_items_after_crash : forall wfk pairs f d cfg d' f' cfg',
   kv_ok wfk pairs (after f' d' cfg').
 Proof. exact items_crash_safe. Qed.
 
+(* ---- starts that fail (store locked by a process still running, transient Open errors) ---- *)
+
+(* a start whose badger.Open fails passes through no on-disk state and uses no identity;
+   hence over EVERY history with failed starts interleaved anywhere, the identities of
+   the completed starts and the final disk are those of the history without them *)
+Theorem C18_failed_starts_change_nothing : forall h d,
+  runs_h d h = runs d (completed_steps h) /\ after_h d h = after_all d (completed_steps h).
+Proof. exact failed_starts_change_nothing. Qed.
+
+Theorem C18_token_stable_with_failed_starts : forall d h id1 rest,
+  Forall (fun s => hs_open_fails s = false -> token_wf (f_token (hs_fresh s)) = true) h ->
+  runs_h d h = id1 :: rest -> Forall (fun id => id_token id = id_token id1) rest.
+Proof. exact token_stable_h. Qed.
+
+Theorem C18_items_stable_with_failed_starts : forall h d i j idi idj it v w,
+  i <= j -> nth_error (runs_h d h) i = Some idi -> nth_error (runs_h d h) j = Some idj ->
+  In (it, v) (id_items idi) -> In (it, w) (id_items idj) -> v = w.
+Proof. exact items_stable_h. Qed.
+
+(* ---- the token as delivered ---- *)
+
+(* for every set of configured channels, every list of [[filter]] sections (a channel named
+   by any number of them, unknown channel names, with or without categories) and every
+   event: whatever arrives on a channel carries the sensor's token ... *)
+Theorem C18_delivered_token : forall tok ev_tok defined fs cat d,
+  In d (deliver tok ev_tok (wire defined fs) cat) -> snd d = tok.
+Proof. exact delivered_token. Qed.
+
+(* ... and it arrives through every filter that lists the channel and admits the event *)
+Theorem C18_delivery_complete : forall tok ev_tok defined fs f c cat,
+  In f fs -> In c (fl_chans f) -> In c defined ->
+  (fl_cats f = [] \/ In cat (fl_cats f)) ->
+  In (c, tok) (deliver tok ev_tok (wire defined fs) cat).
+Proof. exact delivery_complete. Qed.
+
 (* ---- what each service instance presents ---- *)
 
 (* for every list of configured instances (any kinds, any number of instances sharing one
@@ -125,12 +160,18 @@ Proof. exact presented_stored. Qed.
    token-changed (value part), token-not-persisted and stored-item-changed (store part):
    those checks follow from the theorems above and are never stricter than the property *)
 Theorem C18_check_consistent : forall c,
-  agrees (c_disk0 c) (c_runs c) = true -> tokens_wf (c_runs c) = true ->
-  tokens_equal (c_runs c) = true /\ tokens_persisted (c_runs c) = true /\
-  kv_monotone (d_kv (c_disk0 c)) (map (fun r => d_kv (r_disk r)) (c_runs c)) = true.
+  agrees (c_disk0 c) (ok_runs c) = true -> tokens_wf (ok_runs c) = true ->
+  tokens_equal (ok_runs c) = true /\ tokens_persisted (ok_runs c) = true /\
+  kv_monotone (d_kv (c_disk0 c)) (map (fun r => d_kv (r_disk r)) (ok_runs c)) = true.
 Proof. exact check_consistent. Qed.
 
 (* ---- non-vacuity ---- *)
+Example C18_delivery_nonvacuous :
+  let fs := [mkFilt [1] [10]; mkFilt [1; 2; 9] [11]; mkFilt [2; 1] []]%N in
+  deliver [7]%N [] (wire [1; 2]%N fs) 11 = [(1, [7]); (2, [7]); (2, [7]); (1, [7])]%N /\
+  deliver [7]%N [] (wire [1; 2]%N fs) 12 = [(2, [7]); (1, [7])]%N.
+Proof. vm_compute. split; reflexivity. Qed.
+
 Example C18_presented_nonvacuous :
   presented (fun k => [item_code (shown_item k)])
             [mkInst KSim None; mkInst KAuth (Some [99]%N); mkInst KJail None; mkInst KAuth None; mkInst KFtp None; mkInst KFtp None]
@@ -194,6 +235,11 @@ Print Assumptions C18_items_persisted.
 Print Assumptions C18_stored_items_kept.
 Print Assumptions C18_kv_items_crash_safe.
 Print Assumptions C18_items_after_crash.
+Print Assumptions C18_failed_starts_change_nothing.
+Print Assumptions C18_token_stable_with_failed_starts.
+Print Assumptions C18_items_stable_with_failed_starts.
+Print Assumptions C18_delivered_token.
+Print Assumptions C18_delivery_complete.
 Print Assumptions C18_presented_identity.
 Print Assumptions C18_presented_stored.
 Print Assumptions C18_check_consistent.
